@@ -236,6 +236,24 @@ def extra_checks(rng, tier, g, info):
                                            sp, det.get("status"), hit[:24]))
                                 return
     info["paranoia_option_placements"] = m
+    # secrets of awkward SHAPES (wrapped in quotes, shell / format / escape syntax, leading dash or at-sign, blanks):
+    # with --paranoia nothing of the run's output — standard output, target file — contains the passphrase
+    mn_ = "legal winner thank year wave sausage worth useful legal winner thank yellow"
+    shapes = ["'correct horse battery'", '"correct horse battery"', "`correct horse`", "$(correct horse)", "${CORRECT_HORSE}",
+              "%s correct %d horse", "{0} correct {horse}", "correct\\nhorse\\tbattery", " correct horse ", "correct  horse",
+              "#correct horse", "~correct/horse", "correct;horse|battery", "<correct> horse", "correct=horse", "C:\\correct\\horse"]
+    r_ = 0
+    for pw_ in (shapes if tier == "thorough" else shapes[:2] + rng.sample(shapes[2:], 3)):
+        for argv in (["--paranoia", "--interval", "0", "1", "from-mnemonic", mn_, "--password", pw_],
+                     ["--paranoia", "--file", "@F", "--interval", "0", "1", "from-entropy-hex", "7f" * 16, "--password", pw_]):
+            canon, det = impl.cli_run("absent", bytes(40), argv)
+            r_ += 1
+            for where, tx in (("standard output", det.get("stdout") or ""), ("the target file", det.get("created") or "")):
+                if pw_ in tx or pw_.strip("'\"` ") in tx or mn_ in tx:
+                    yield ("cli absent %s %s" % (hx(bytes(40)), ",".join(sx(a) for a in argv)),
+                           "a --paranoia run shows the passphrase / mnemonic it was given in %s" % where)
+                    return
+    info["awkward_secret_shapes"] = r_
     # CRASH POINTS: the run is interrupted (KeyboardInterrupt, what Ctrl-C does) at its k-th derivation step, for k
     # spread over the whole run; whatever is on standard output or in the target file at that moment contains no secret
     import bisect
